@@ -279,10 +279,40 @@ def run_closure_sinks(ctx, n):
                           dict(kind=1601, line=line, case=sg.describe(c), which=which, k=k, got=repr(got), expected=repr(exp)))
 
 
+def run_failing_readers(ctx, n):
+    """the source's error is returned to the caller — the very error (kind and payload), whatever the strategy (roll buffer,
+    multi-line heap read with and without a heap limit), and finish is never called after it"""
+    rng = ctx.rng
+    lines, cases = [], []
+    for _ in range(n):
+        c = sg.gen_case(rng, multi_line=(rng.random() < 0.5))
+        if c["cfg"]["multi_line"]:
+            c["lt_mode"] = 0
+        hl = "()" if rng.random() < 0.4 else vlib.vlist([str(rng.choice([len(c["input"]) + 1, len(c["input"]) + 7, 65536, 200000]))])
+        j = rng.randint(0, max(1, len(c["input"]) // 3 + 1))
+        cases.append((c, hl, j))
+        lines.append(vlib.vlist([sg.cfg_val(c["cfg"]), sg.matcher_val(c["needles"], c["confirm"], c["lt_mode"]),
+                                 vlib.vbytes(c["input"]), hl, str(j)]))
+    for (c, hl, j), line, o in zip(cases, lines, vlib.code(1602, lines)):
+        try:
+            st, kind_ok, payload_ok, finished = list(parse_val(o))     # four small numbers: printed as a byte string
+        except Exception:
+            ctx.violation("harness failure in the failing-reader case: " + o[:100], dict(kind=1602, line=line), nfi=True)
+            continue
+        ctx.note_case(line, st == 1)
+        if st == 1 and not (kind_ok and payload_ok):
+            ctx.violation("a failing read is not returned to the caller as the source's own error (kind or payload lost)",
+                          dict(kind=1602, line=line, case=sg.describe(c), heap_limit=hl, fail_at_read=j, kind_preserved=bool(kind_ok),
+                               payload_preserved=bool(payload_ok)))
+        if st == 1 and finished:
+            ctx.violation("finish was signalled although the source failed", dict(kind=1602, line=line, case=sg.describe(c), heap_limit=hl, fail_at_read=j))
+
+
 def run(ctx):
     rng = ctx.rng
     n = ctx.count(700)
     run_closure_sinks(ctx, ctx.count(400))
+    run_failing_readers(ctx, ctx.count(300))
     run_read_failures(ctx, n)
     run_max_count(ctx, ctx.count(60))
     cases = sg.regress_cases() + [sg.gen_case(rng) for _ in range(n)]
